@@ -313,7 +313,8 @@ CONFIG = {
                       "SetBytes/Bytes are the little-endian codec of the canonical residue (same encoding iff same residue), and Equal/IsNegative/"
                       "Select/Swap their definitions. The translated field code is executed by scdriver on every field operation of the stream "
                       "(raw limbs in, raw limbs out, arbitrary 64-bit limbs included) and compared with the Go code. "
-                      "PARTIAL for the rest: Absolute and SqrtRatio are translated and executed but not proved; the point formulas, point decoding, "
+                      "Absolute and the soundness of SqrtRatio (non-negative result; whenever a square is reported, v·r² = u in ZMod p) are proved too "
+                      "(Proofs/FeAbs, FeField, FeSqrt); PARTIAL for the rest: completeness of SqrtRatio (Euler's criterion) is not proved; the point formulas, point decoding, "
                       "the table-driven scalar multiplications and SetBytesWithClamping are not translated; they are covered by the differential "
                       "stream only (signatures/keys against crypto/ed25519 and the Lean RFC 8032 model, and the bulk random search against math/big). "
                       "Public keys must be 32 bytes (documented precondition).",
@@ -325,7 +326,8 @@ CONFIG = {
         "extractors": [{"name": "sclimbs", "out": "ScLimbs.lean"}, {"name": "felimbs", "out": "FeLimbs.lean"}],
         "aux_driver": {"exe": "scdriver", "ops": ["c14.screduce", "c14.scmuladd", "c14.sccanon", "c14.fe", "c14.fel"]},
         "extra_modules": ["PatVerif.Proofs.Sig", "PatVerif.Proofs.DER", "PatVerif.Proofs.ScReduce", "PatVerif.Proofs.ScMulAdd", "PatVerif.Proofs.ScScalar",
-                          "PatVerif.Proofs.FeCarry", "PatVerif.Proofs.FeMul", "PatVerif.Proofs.FeMisc", "PatVerif.Proofs.FeBytes", "PatVerif.Proofs.FePow"],
+                          "PatVerif.Proofs.FeCarry", "PatVerif.Proofs.FeMul", "PatVerif.Proofs.FeMisc", "PatVerif.Proofs.FeBytes", "PatVerif.Proofs.FePow",
+                          "PatVerif.Proofs.FeAbs", "PatVerif.Proofs.FeField", "PatVerif.Proofs.FeSqrt"],
         "contradicts": "PatVerif.Props.C14",
     },
     "C15": {
@@ -345,7 +347,8 @@ CONFIG = {
         "extractors": [{"name": "sclimbs", "out": "ScLimbs.lean"}, {"name": "felimbs", "out": "FeLimbs.lean"}],
         "aux_driver": {"exe": "scdriver", "ops": ["c14.screduce", "c14.scmuladd", "c14.sccanon", "c14.fe", "c14.fel"]},
         "extra_modules": ["PatVerif.Proofs.Group", "PatVerif.Proofs.Sig", "PatVerif.Proofs.ScReduce", "PatVerif.Proofs.ScMulAdd", "PatVerif.Proofs.ScScalar",
-                          "PatVerif.Proofs.FeCarry", "PatVerif.Proofs.FeMul", "PatVerif.Proofs.FeMisc", "PatVerif.Proofs.FeBytes", "PatVerif.Proofs.FePow"],
+                          "PatVerif.Proofs.FeCarry", "PatVerif.Proofs.FeMul", "PatVerif.Proofs.FeMisc", "PatVerif.Proofs.FeBytes", "PatVerif.Proofs.FePow",
+                          "PatVerif.Proofs.FeAbs", "PatVerif.Proofs.FeField", "PatVerif.Proofs.FeSqrt"],
         "contradicts": "PatVerif.Props.C15",
     },
     "C16": {
